@@ -51,5 +51,5 @@ MANIFEST = {
     'category': 'proof',
     'technique': 'contract-based deductive verification (pyvc: list-of-sets state over an uninterpreted cell and function sorts, quantified loop invariants, callee contracts, z3); exhaustive/random refinement histories on the real code as bounded stand-in for the matrix-level clauses',
     'text': 'The mesh transition HMesh.refine is proved from source for all level counts, states and markings to realise the intended set equations and to preserve the region invariants that imply the exact tiling; cell_children/cell_parent are proved to be mutually consistent enumerations (2^d distinct children, each with the right parent, complete) for d = 1..3. The activation clause (active iff support in region l but not in region l+1, deactivated iff in both) is proved as an inductive invariant of HSpace.refine for all level counts, states and markings over an abstract support relation (_functions_to_deactivate and the activation loop under contract, HMesh.refine used through its contract); the marking pass is proved closed under the neighbourhood operator and to keep marks inside the active cells. On all sequences of <=2 (thorough 3) refine calls over all non-empty subsets of active cells for small 1D meshes and the 2D 2x2 mesh, plus random multi-level histories in 1D-3D with p<=3, disparity in {1,2,inf}, both bases, marks as set/list/tuple: region invariants and tiling, the activation clause again on real tensor-product supports, canonical order, linear independence, THB non-negativity and partition of unity, thb_to_hb/hb_to_thb mutually inverse and consistent, disparity bound, incidence matrix and support queries agree with the geometry (bounded).',
-    'note': 'uninterpreted cell and function sorts (support relation assumed for TPMesh.support/supported_in); matrix-level clauses and the disparity bound bounded; tiling bridge argument in DESIGN.md.',
+    'note': 'uninterpreted cell and function sorts (support relation assumed for TPMesh.support/supported_in); matrix-level clauses and the disparity bound bounded; tiling bridge argument in DESIGN.md. Fixed in /repo: refinement calls that mark nothing (empty containers, region predicates matching no cell) are no-ops instead of raising; max_lv is modelled with its -1 branch and its statement pinned by an obligation.',
 }
